@@ -124,6 +124,44 @@ def oracle(case, res, extra):
                               {"qref": case.qref, "history": ["compile(obj)", "in-place edits " + str(edits), "compile(obj)"]}, err2, "structure of the edited document")
                 return
 
+    # ---- legal but unusual document: a resource whose value is left out (`value: null` is schema-valid QREF).  The implementation may
+    # refuse such a document; if it compiles it, every declared resource must still be there with its name and type
+    if case.seed % 3 == 0:
+        import copy
+
+        from ..real import try_compile
+
+        rng = random.Random(case.seed * 37 + 1)
+        doc = copy.deepcopy(case.qref)
+        holders = []
+
+        def coll(n):
+            if n.get("resources") and not n.get("repetition"):
+                holders.append(n)
+            for k in n.get("children", []):
+                coll(k)
+        coll(doc)
+        if holders:
+            tgt = rng.choice(holders)
+            rsrc = rng.choice(tgt["resources"])
+            rsrc["value"] = None
+            if rng.random() < 0.4:
+                rsrc["type"] = rng.choice(["other", "qubits", "additive", "multiplicative"])
+            try:
+                src3 = schema(doc).program
+            except Exception:
+                src3 = None
+                res.stats["null_resource_rejected_by_schema"] += 1
+            if src3 is not None:
+                st3, r3 = try_compile(doc)
+                res.stats["null_resource_" + st3.split(":")[0]] += 1
+                if st3 == "ok":
+                    err3 = rec(src3, _V(r3.routine), [])
+                    if err3:
+                        res.violation("failing-input", "a document with a value-less resource is compiled, but the compiled hierarchy differs in structure: " + err3,
+                                      {"qref": doc}, err3, "same structure (or the document refused)")
+                        return
+
     def count(n):
         return 1 + sum(count(c) for c in n.children)
 
